@@ -185,8 +185,8 @@ def make_exact(shape, nfrag, bmax):
             return "legal encoding rejected (buffer %r, short reads %r)" % (b, frags)
         if out != p:
             return "decoded %r, payload %r" % (out, p)
-        if s.pos > core:
-            return "decoder consumed %r bytes, encoding core is %r" % (s.pos, core)
+        # (how much of the trailer section the decoder reads is not part of the statement: a decoder may stop after the
+        #  last-chunk line, as ombott does, or read the trailer fields and the final CRLF)
         return None
     return q
 
